@@ -394,6 +394,14 @@ impl Stdfs {
         // directory traversal that otherwise wouldn't be allowed.
         let m = opts.clone();
         entries = entries.follow(opts.follow).dirs_first().pre_op(move |x| {
+            // When following a link work with the real entry the link points to
+            let real;
+            let x = if x.is_symlink() && m.follow {
+                real = Stdfs::entry(x.path())?;
+                &real
+            } else {
+                x
+            };
             let m1 = sys::mode(x, m.dirs, &m.sym)?;
             if (!x.is_symlink() || m.follow) && x.is_dir() && !sys::revoking_mode(x.mode(), m1) && x.mode() != m1 {
                 fs::set_permissions(x.path(), fs::Permissions::from_mode(m1))?;
@@ -404,6 +412,7 @@ impl Stdfs {
         // Set permissions on the way out for everything specified
         for entry in entries {
             let src = entry?;
+            let src = if src.is_symlink() && opts.follow { Stdfs::entry(src.path())? } else { src };
 
             // Compute mode based on octal and symbolic values
             let m2 = if src.is_dir() {
